@@ -1,6 +1,8 @@
 import MW.Staking.Facts
 import MW.Staking.Query
 import MW.Staking.Effects
+import MW.Inv.OracleOptional
+import MW.Inv.Demo
 /-!
 # C15 — Rates posted to the oracle are the post-transaction rates; the oracle is optional
 -/
@@ -186,6 +188,44 @@ theorem resume_succeeds_without_oracle (s : CState) (env : Env) (info : Info) (n
   simp only [h1, bind, Except.bind]
   rw [oracle_msgs_none _ env _ (by simpa using ho)]
   rfl
+
+/-- the operations that post rates (the four that can change the totals, and Withdraw) -/
+def postsRates : ExecMsg → Bool
+  | .liquidStake .. | .submitBatch | .withdraw _ | .receiveRewards | .resumeContract .. => true
+  | _ => false
+
+/-- **the oracle is optional.**  For every state, sender, funds and arguments: if one of these
+operations succeeds with an oracle configured, then with no oracle configured (everything else equal)
+it succeeds too, leaves the same store (up to the oracle field itself) and returns the same messages
+except that nothing is posted. -/
+theorem oracle_optional (s s' : CState) (env : Env) (info : Info) (m : ExecMsg) (out : List SubMsg) (o : String)
+    (hm : postsRates m = true) (h : execute (setOracle s (some o)) env info m = .ok (s', out)) :
+    execute (setOracle s none) env info m = .ok (setOracle s' none, out.filter nonOracle) := by
+  cases m <;> simp [postsRates] at hm <;> simp only [execute] at h ⊢
+  case liquidStake mt tn ex =>
+    simp only [bind_ok] at h ⊢
+    obtain ⟨pay, hp, h⟩ := h
+    exact ⟨pay, hp, stake_oracle_optional s s' env info pay mt tn ex out o h⟩
+  case submitBatch => exact submit_oracle_optional s s' env info out o h
+  case withdraw b => exact withdraw_oracle_optional s s' env info b out o h
+  case receiveRewards => exact rewards_oracle_optional s s' env info out o h
+  case resumeContract n l r => exact resume_oracle_optional s s' env info n l r out o h
+
+/-- ... and what is returned without an oracle contains no message to any contract -/
+theorem oracle_optional_posts_nothing (out : List SubMsg) (x : SubMsg) (hx : x ∈ out.filter nonOracle)
+    (sender c p : String) : x.msg ≠ .wasmExec sender c p := by
+  intro hc
+  have := (List.mem_filter.mp hx).2
+  simp [nonOracle, hc] at this
+
+-- non-vacuity of `oracle_optional` (a test of its hypothesis, not a proof): with an oracle configured the
+-- admin's resume to totals 3001/1500 succeeds on the demo contract and posts one message; without one
+-- it succeeds and posts none
+#guard (MW.Chain.Demo.demoBoot.map fun w =>
+    match execute (setOracle w.c (some "osmo1oracle")) MW.Chain.Demo.demoEnv ⟨MW.Chain.Demo.demoAdmin, []⟩ (.resumeContract 3001 1500 0),
+          execute (setOracle w.c none) MW.Chain.Demo.demoEnv ⟨MW.Chain.Demo.demoAdmin, []⟩ (.resumeContract 3001 1500 0) with
+    | .ok (_, out1), .ok (_, out2) => (out1.length, out2.length)
+    | _, _ => (99, 99)) == some (1, 0)
 
 /-- non-vacuity / regression witnesses: totals 3001/1500 give the strings the fixed code posts;
 the first stake into an empty pool posts 1/1 -/
